@@ -7,7 +7,6 @@ from .._sentinels import undefined
 from .._utils import value_to_token
 from .generic_value import GenericValue
 from .generic_value import clone
-from .generic_value import ignore_old_value
 
 
 class MinMaxValue(GenericValue):
@@ -20,17 +19,17 @@ class MinMaxValue(GenericValue):
     def _generic_cmp(self, other):
         if self._old_value is undefined:
             state().missing_values += 1
-
-        if self._new_value is undefined:
-            self._new_value = clone(other)
-            if self._old_value is undefined or ignore_old_value():
-                return True
-            return self._return(self.cmp(self._old_value, other))
+            result = True
         else:
-            if not self.cmp(self._new_value, other):
-                self._new_value = clone(other)
+            result = self.cmp(self._old_value, other)
 
-        return self._return(self.cmp(self._visible_value(), other))
+        if self._new_value is undefined or not self.cmp(self._new_value, other):
+            self._new_value = clone(other)
+
+        if self._old_value is undefined:
+            return True
+
+        return self._return(result)
 
     def _new_code(self):
         return self._file._value_to_code(self._new_value)
